@@ -1125,10 +1125,10 @@ def run(ctx):
     S = strategies(ctx.shard + ctx.seed)
     if ctx.shard == 0:
         ctx.direct(check_defaults, {"kind": "defaults"}, label="defaults")
-    ctx.hypothesis(S["history"], check_history, ctx.scale(600, 40000), label="history")
-    ctx.hypothesis(S["legacy"], check_legacy, ctx.scale(300, 20000), label="legacy")
-    ctx.hypothesis(S["setup"], check_setup, ctx.scale(400, 20000), label="setup")
-    ctx.hypothesis(S["batch"], check_batch, ctx.scale(16, 400), label="batch")
+    ctx.hypothesis(S["history"], check_history, ctx.scale(600, 20000), label="history")
+    ctx.hypothesis(S["legacy"], check_legacy, ctx.scale(300, 12000), label="legacy")
+    ctx.hypothesis(S["setup"], check_setup, ctx.scale(400, 12000), label="setup")
+    ctx.hypothesis(S["batch"], check_batch, ctx.scale(16, 240), label="batch")
 
 
 def replay(case, ctx):
